@@ -5,7 +5,7 @@ namespace Py
 
 inductive Exc
   | valueError | indexError | typeError | hpackDecodingError | invalidTableIndex | invalidTableSizeError
-  | oversizedHeaderListError | nonTermination
+  | oversizedHeaderListError | unicodeDecodeError | nonTermination
 deriving Repr, DecidableEq
 
 abbrev R := Except Exc
@@ -92,5 +92,52 @@ def tryExcept {α} (body : R α) (exc : Exc) (handler : R α) : R α :=
   match body with
   | .ok a => .ok a
   | .error e => if e = exc then handler else .error e
+
+/-! ### methods: the object travels with the result *and* with the exception (mutations made before a `raise` persist) -/
+
+/-- result of a method on an object of type `σ`: the updated object and the value, or the exception and the object as it was when raised -/
+abbrev RS (σ : Type) (α : Type) := Except (Exc × σ) α
+
+/-- a pure (object-free) partial operation used inside a method: an exception leaves the object as it is now -/
+def liftR {σ α} (s : σ) (r : R α) : RS σ α :=
+  match r with
+  | .ok a => .ok a
+  | .error e => .error (e, s)
+
+/-- a method of a sub-object `τ` stored in a field of `σ`: the field is updated on return and on exception -/
+def liftSub {σ τ α} (s : σ) (put : σ → τ → σ) (r : RS τ (τ × α)) : RS σ (σ × α) :=
+  match r with
+  | .ok (t, a) => .ok (put s t, a)
+  | .error (e, t) => .error (e, put s t)
+
+/-- `try: body except <exc>: handler` inside a method: the handler starts from the object as it was when the exception was raised -/
+def tryExceptS {σ α} (body : RS σ α) (exc : Exc) (handler : σ → RS σ α) : RS σ α :=
+  match body with
+  | .ok a => .ok a
+  | .error (e, s) => if e = exc then handler s else .error (e, s)
+
+/-! ### slices of bytes-like objects (non-negative bounds; Python clamps to the length) -/
+def sliceFrom (b : List UInt8) (i : Int) : R (List UInt8) :=
+  if i < 0 then .error .typeError else .ok (b.drop i.toNat)      -- negative bounds are outside the translated subset
+def slice (b : List UInt8) (i j : Int) : R (List UInt8) :=
+  if i < 0 ∨ j < 0 then .error .typeError else .ok ((b.take j.toNat).drop i.toNat)
+
+/-- `[f(x) for x in xs]`: the first exception stops the comprehension -/
+def listMapM {α β} (f : α → R β) : List α → R (List β)
+  | [] => .ok []
+  | x :: xs =>
+    match f x with
+    | .error e => .error e
+    | .ok y =>
+      match listMapM f xs with
+      | .error e => .error e
+      | .ok ys => .ok (y :: ys)
+
+/-- a decoded header field: name, value, and whether its class is `NeverIndexedHeaderTuple` -/
+abbrev Header := List UInt8 × List UInt8 × Bool
+
+/-- `b.decode('utf-8')`: `str` values are represented by their UTF-8 encoding; decoding is validation -/
+def utf8Decode (valid : List UInt8 → Bool) (b : List UInt8) : R (List UInt8) :=
+  if valid b then .ok b else .error .unicodeDecodeError
 
 end Py
